@@ -197,7 +197,17 @@ def run_kind(ctx, tie, scale):
             data, expect = build(params)
             fields = tie.fields_of(kind, params, data)
             specs.append(("hm:" + kind, fields, data, expect, params))
-    for fields in tie.lattice(rng, scale):
+    lat = tie.lattice(rng, scale)
+    if hasattr(tie, "header_packets"):
+        # two of three lattice files carry the codec's real comment/setup packets after the identification page, so that
+        # the file class (tags and all) loads them too, not only the info class
+        for i, fields in enumerate(lat):
+            if i % 3 != 2 and isinstance(fields.get("middle"), bytes) and "serial" in fields:
+                mid = ogg_page(tie.header_packets(), fields["serial"], 1, 0)
+                if i % 3 == 1:
+                    mid += ogg_page([rbytes(rng, 5)], fields["serial"] ^ 1, 0, 77, flags=2)
+                fields["middle"] = mid
+    for fields in lat:
         # `_py`: the same file built by an independent Python builder
         specs.append(("lattice", fields, fields.pop("_py", None), None, None))
     lines = []
@@ -258,6 +268,18 @@ def run_kind(ctx, tie, scale):
         if rstat == "hang":
             ctx.violation("infob:%s:hang" % tie.name, "did not finish", desc)
             continue
+        pk, pr = timed(lambda: tie.public(data), 20)
+        if ctx.prop == "C04":
+            # under C04: the info class alone may raise what its file class converts (EOFError, struct.error …); what
+            # counts is what the caller of the public class sees
+            if pk == "hang" or (pk == "exc" and classify(pr) != "err:mutagen"):
+                if "data" not in desc and len(data) < 700:
+                    desc = dict(desc, data=hx(data))
+                ctx.violation("infob:%s:escape:%s" % (tie.name, "hang" if pk == "hang" else classify(pr)[4:]),
+                              "loading raised %r instead of a MutagenError" % (pr,), desc)
+            elif rstat not in ("ok", "err:mutagen"):
+                ctx.hist["infob:%s:info-class-only-exception" % tie.name] += 1
+        ctx.hist["infob:%s:file-class:%s" % (tie.name, "none" if (pk == "ok" and pr is None) else pk if pk != "exc" else classify(pr))] += 1
         if "data" not in desc and len(data) < 700:
             desc = dict(desc, data=hx(data))
         compare(ctx, tie, "parse", desc, ans, rstat, rvals)
@@ -267,8 +289,8 @@ def run_kind(ctx, tie, scale):
                 ctx.disagree("%s: theorem instance: real class raised on an OK header" % tie.name, desc, model="expected " + repr(exp)[:200], impl=rstat)
             else:
                 compare(ctx, tie, "expected", desc, "ok " + " ".join("%s=%s" % kv for kv in exp.items()), rstat, rvals)
-        if what.startswith("hm:") and rstat == "ok":
-            pub = tie.public(data)
+        if (what.startswith("hm:") or what == "lattice") and rstat == "ok" and pk == "ok":
+            pub = pr
             if pub is not None and pub != rvals:
                 ctx.disagree("%s: public class differs from the info class" % tie.name, desc, model=repr(rvals)[:200], impl=repr(pub)[:200])
     return ncases
@@ -955,6 +977,15 @@ class OggTie(KindTie):
     def public(self, data):
         mod, name = self.file_path
         return self.attrs_of(getattr(importlib.import_module(mod), name)(io.BytesIO(data)).info)
+
+    def header_packets(self):
+        """the packets that follow the identification packet in a loadable file of this codec"""
+        from gen import headers_more as H
+        vc = H._vcomment()
+        return {"OggVorbis": [b"\x03vorbis" + H._vcomment(framing=True), b"\x05vorbis" + H._filler(40)],
+                "OggOpus": [b"OpusTags" + vc], "OggSpeex": [vc],
+                "OggTheora": [b"\x81theora" + vc, b"\x82theora" + H._filler(40)],
+                "OggFLAC": [bytes([0x84]) + struct.pack(">I", len(vc))[1:] + vc]}[self.name]
 
     def ident_of(self, good):
         """the identification packet of a headers_more file (first page, single packet)"""
